@@ -1,0 +1,12 @@
+//go:build verif
+
+// Contracts for the gvc verifier (/verif). This file contains comments only:
+// with the "verif" build tag off it is not compiled, with it on it adds no code.
+
+package xutils
+
+// Legacy node-set engine: string-values of the nodes of a node-set. With emptyOk the result is never
+// empty (an empty node-set yields a single empty string). Body not verified (pure; modifies nothing).
+//@ func GetStringValues
+//@   assumed
+//@   ensures implies(addEmptyStr, len(result) >= 1)
